@@ -43,6 +43,7 @@ RULES = {
     "mut_on_ctor": ["mut_input"],
     "mut_on_wrap": ["mut_input"],
     "clone_not_clone": ["clone_not_clone"],
+    "clone_not_clone_fallible": ["clone_not_clone"],   # the offending constructor returns a Result
     "observer_fallible_direct": ["observer_fallible"],
     "observer_fallible_transitive": ["observer_fallible"],
     "route_same": ["route_method_conflict"],
@@ -365,7 +366,7 @@ def plant(rng, base, rule):
     info = {"rule": rule, "expect": RULES[rule]}
     ok = _plant(rng, spec, t, place, rule, info, M)
     if ok is False:
-        fb = {"cycle_back_edge": "cycle2", "missing_unregistered": "missing"}.get(rule)
+        fb = {"cycle_back_edge": "cycle2", "missing_unregistered": "missing", "clone_not_clone_fallible": "clone_not_clone"}.get(rule)
         if fb is None:
             return None
         info["fallback"] = fb   # the application has no place for this variant: plant the plain one
@@ -600,10 +601,14 @@ def _plant(rng, spec, t, place, rule, info, M):
         info["victim"] = list(v[:3])
         return True
 
-    if rule == "clone_not_clone":
+    if rule in ("clone_not_clone", "clone_not_clone_fallible"):
         v = rng.choice(victims(spec, place, ["h", "pre", "post", "wrap", "cs"]))
         cons, scope, life = chain_to(rng, spec, t, place, v, depth)
-        a = new_ctor(spec, "singleton" if life == "singleton" else rng.choice(["request", "singleton", "transient"]), [], cloning=True, clone=False)
+        fal = rule.endswith("_fallible")
+        if fal and life == "singleton":
+            return False
+        a = new_ctor(spec, "singleton" if life == "singleton" else rng.choice(["request", "transient"] + ([] if fal else ["singleton"])), [],
+                     cloning=True, clone=False, fallible=fal)
         s = rng.choice(t.anc(scope))
         t.ops[s].insert(0, ["ctor", a])
         place[("c", a)] = s
